@@ -101,9 +101,30 @@ func (m *verModel) uniqueID(id string) bool {
 }
 
 func c05Step(h http.Handler, m *verModel, keys []string) {
-	op := vsym.Choice("op", 6)
+	op := vsym.Choice("op", 6+vsym.Param("copyop", 0))
 	k := keys[vsym.Choice("key", len(keys))]
 	switch op {
+	case 6: // copy the key onto itself: a new version with the current bytes and metadata
+		r := Do(h, Req{Method: "PUT", Path: "/bkt/" + k, Header: http.Header{"X-Amz-Copy-Source": {"/bkt/" + k}}})
+		t, ok := m.top(k)
+		if m.fuzzy[k] {
+			vsym.Assume(false) // the model does not pin the source down here
+		}
+		if !ok || t.marker {
+			vsym.Assert(r.Code() == 404 && r.ErrCode() == "NoSuchKey", "C05/copy-absent-source")
+			return
+		}
+		vsym.Assert(r.Code() == 200, "C05/copy-status")
+		id := r.Hdr.Get("x-amz-version-id")
+		if m.mode == 1 {
+			// the id the copy reports is the id of the version it created
+			vsym.Assert(id != "" && m.uniqueID(id), "C05/copy-version-id-fresh")
+			m.stack[k] = append(m.stack[k], verEntry{id: id, body: t.body, enabled: true})
+		} else {
+			vsym.Assert(id == "", "C05/copy-unversioned-has-no-version-id")
+			m.removeID(k, "")
+			m.stack[k] = append(m.stack[k], verEntry{body: t.body})
+		}
 	case 0: // put
 		body := vsym.Bytes("body", 1)
 		r := Do(h, BodyReq("PUT", "/bkt/"+k, c05Meta(body), body))
